@@ -65,4 +65,18 @@ def noTrailingWs : Bytes → Bool
 /-- quoted-printable / base64: ASCII lines of at most 76 characters, no bare trailing white space -/
 def encodedOk (s : Bytes) : Bool := s.all (fun b => b < 128) && linesOk 76 s && noTrailingWs s
 
+/-! ### a text-mode reader: CRLF is the line break -/
+
+/-- every CRLF is read as one line break (LF); nothing else changes — a CR that is not followed
+    by LF stays. `p` = a CR is pending. Two texts with the same `toLf` differ only in how
+    their line breaks are spelled. -/
+def toLfGo : Bool → Bytes → Bytes
+  | p, [] => if p then [13] else []
+  | p, b :: r =>
+    if b = 13 then (if p then 13 :: toLfGo true r else toLfGo true r)
+    else if b = 10 then 10 :: toLfGo false r
+    else if p then 13 :: b :: toLfGo false r else b :: toLfGo false r
+
+def toLf (s : Bytes) : Bytes := toLfGo false s
+
 end LV.BodyDec
